@@ -16,6 +16,9 @@ pub enum Case {
     CrossThread { key: String },
     /// key / block lengths that equal 16 modulo 256 or 65536 must be refused like any other wrong length
     AliasLength { len: usize },
+    /// two ciphers built one after the other on one thread, the second key derived from the first key's schedule or
+    /// ciphertext by `link`; each is then judged, and the first once more
+    KeyChain { key: String, link: String },
 }
 
 fn std_key_bytes() -> [u8; 16] {
@@ -94,6 +97,46 @@ fn eval(ctx: &Ctx, case: &Case) {
             } else {
                 ctx.violation("Sm4Cipher", "wrong-result-on-another-thread", format!("key={} moved-ok={} shared-ok={}", key, ok1, ok2), serde_json::to_value(case).unwrap());
             }
+        }
+        Case::KeyChain { key, link } => {
+            let k1 = h16(key);
+            let rk = sm4::round_keys(&k1);
+            const FK: [u32; 4] = [0xa3b1bac6, 0x56aa3350, 0x677d9197, 0xb27022dc];
+            let words = |w: [u32; 4]| -> [u8; 16] {
+                let mut o = [0u8; 16];
+                for (i, x) in w.iter().enumerate() {
+                    o[4 * i..4 * i + 4].copy_from_slice(&x.to_be_bytes());
+                }
+                o
+            };
+            let k2: [u8; 16] = match link.as_str() {
+                "rk28..31^FK" => words([rk[28] ^ FK[0], rk[29] ^ FK[1], rk[30] ^ FK[2], rk[31] ^ FK[3]]),
+                "rk0..3^FK" => words([rk[0] ^ FK[0], rk[1] ^ FK[1], rk[2] ^ FK[2], rk[3] ^ FK[3]]),
+                "rk28..31" => words([rk[28], rk[29], rk[30], rk[31]]),
+                "rk31..28" => words([rk[31], rk[30], rk[29], rk[28]]),
+                "rk0..3" => words([rk[0], rk[1], rk[2], rk[3]]),
+                "K1^FK" => {
+                    let mut o = k1;
+                    for (i, b) in words(FK).iter().enumerate() {
+                        o[i] ^= b;
+                    }
+                    o
+                }
+                "E_K1(0)" => sm4::encrypt_block(&k1, &[0u8; 16]),
+                "E_K1(K1)" => sm4::encrypt_block(&k1, &k1),
+                _ => panic!("unknown link"),
+            };
+            let b = h16("00112233445566778899aabbccddeeff");
+            ctx.calls(2);
+            let Guard::Done(Ok(c1)) = guard(|| gm_sm4::Sm4Cipher::new(&k1)) else { return };
+            let Guard::Done(Ok(c2)) = guard(|| gm_sm4::Sm4Cipher::new(&k2)) else {
+                ctx.violation("Sm4Cipher::new", "valid-key-rejected", format!("key={}", hex::encode(k2)), serde_json::to_value(case).unwrap());
+                return;
+            };
+            check_one(ctx, case, &c2, &k2, &b, false, "second-key-derived-from-the-first");
+            check_one(ctx, case, &c2, &k2, &b, true, "second-key-derived-from-the-first");
+            check_one(ctx, case, &c1, &k1, &b, false, "first-key-after-the-second");
+            check_one(ctx, case, &c1, &k1, &b, true, "first-key-after-the-second");
         }
         Case::AliasLength { len } => {
             let data = vec![0x42u8; *len];
@@ -218,7 +261,7 @@ pub fn replay(ctx: &Arc<Ctx>, v: &Value) {
 
 pub fn run(ctx: &Arc<Ctx>) {
     refmodels::selftest::run(&[ctx.tier.pick("sm4", "sm4long")]).unwrap_or_else(|e| ctx.machinery_error(format!("reference self-test failed: {}", e)));
-    ctx.set_rule("keys x blocks over {0^128, 1^128, 128 single-bit, 16 byte patterns, standard vector, seeded}; derived families forcing every S-box index in every byte lane of round 1 (data path) and of the first key-schedule round; all op sequences to depth 4 over {enc b0, enc b1, dec b0, dec b1, rebuild the object with the same key / a key differing in the last byte / in the first byte, a refused decrypt / encrypt of a 15-byte block, clone-use-drop the clone, continue with a clone and drop the original} (16105 histories per base key); every value of the first and of the last byte of key and block; keys crafted so that round key 0..3, 13..16 or 28..31 is 0 / all ones; objects built on one thread and used (moved / Arc-shared) on fresh threads; key and block lengths 16 + 256k, 16 + 65536 refused. Oracle: independent SM4 with algebraically generated S-box.");
+    ctx.set_rule("keys x blocks over {0^128, 1^128, 128 single-bit, 16 byte patterns, standard vector, seeded}; derived families forcing every S-box index in every byte lane of round 1 (data path) and of the first key-schedule round; all op sequences to depth 4 over {enc b0, enc b1, dec b0, dec b1, rebuild the object with the same key / a key differing in the last byte / in the first byte, a refused decrypt / encrypt of a 15-byte block, clone-use-drop the clone, continue with a clone and drop the original} (16105 histories per base key); every value of the first and of the last byte of key and block; keys crafted so that round key 0..3, 13..16 or 28..31 is 0 / all ones; pairs of ciphers built one after the other where the second key is derived from the first key's schedule or ciphertext (rk28..31 ^ FK, rk0..3 ^ FK, rk28..31, rk31..28, rk0..3, K ^ FK, E_K(0), E_K(K)); objects built on one thread and used (moved / Arc-shared) on fresh threads; key and block lengths 16 + 256k, 16 + 65536 refused. Oracle: independent SM4 with algebraically generated S-box.");
     let nseed = ctx.tier.pick(4, 64);
     let keys = blocks128(ctx.seed, "c02keys", nseed);
     let blocks = blocks128(ctx.seed, "c02blocks", nseed);
@@ -284,6 +327,11 @@ pub fn run(ctx: &Arc<Ctx>) {
     }
     for k in ["0123456789abcdeffedcba9876543210", "00000000000000000000000000000000", "ffffffffffffffffffffffffffffffff", "fedcba98765432100123456789abcdef"] {
         cases.push(Case::CrossThread { key: k.into() });
+    }
+    for k in ["0123456789abcdeffedcba9876543210", "00000000000000000000000000000000", "fedcba98765432100123456789abcdef"] {
+        for link in ["rk28..31^FK", "rk0..3^FK", "rk28..31", "rk31..28", "rk0..3", "K1^FK", "E_K1(0)", "E_K1(K1)"] {
+            cases.push(Case::KeyChain { key: k.into(), link: link.into() });
+        }
     }
     for len in [0usize, 15, 17, 32, 16 + 256, 16 + 512, 16 + 65536, 16 + 256 * 3 + 1] {
         cases.push(Case::AliasLength { len });
